@@ -58,6 +58,23 @@ def build(P):
                                   "result_is_a_member", "isinstance(result, MatchingLabelPolicy)",
                                   "non_member_never_returns", "any([name.upper() == m.value for m in MatchingLabelPolicy])"),
                         raises={"AssertionError": "not any([name.upper() == m.value for m in MatchingLabelPolicy])"}))
+    # set_task_lists: the list form - one member per member name, in the order of the names (other strings are skipped)
+    from pyvc.lemmas import count_fn, add_count_lemmas
+    add_count_lemmas(P)
+    NAMES = "evaluation_tasks_str"
+    is_name = lambda k: f"any([{NAMES}[{k}] == m.value for m in EvaluationTask])"
+    gm, dm = count_fn("names_before", step_trigger=True)
+    TL = TSList(TEnum(idx.lookup("common.evaluation_task:EvaluationTask")))
+    at = lambda lst, k: f"all([implies({NAMES}[{k}] == m.value, {lst}[names_before({k})] is m) for m in EvaluationTask])"
+    P.verify("common.evaluation_task:set_task_lists", name="set_task_lists",
+             contract=Contract("common.evaluation_task:set_task_lists", cut=False, params={NAMES: TSList(TStr())}, returns=TL, locals={"task_lists": TL},
+                               ghosts={"names_before": gm}, defs=dm(is_name, f"len({NAMES})"),
+                               loops={1: LoopSpec(index="i", invariants=E(
+                                   "one_member_per_member_name_so_far", f"not is_old(task_lists) and allocated(task_lists) and len(task_lists) == names_before(i)",
+                                   "in_the_order_of_the_names", f"forall(k, 0, i, {at('task_lists', 'k')})",
+                                   "input_untouched", f"len({NAMES}) == old(len({NAMES})) and forall(k, 0, len({NAMES}), {NAMES}[k] == old({NAMES}[k]))"))},
+                               ensures=E("one_member_per_member_name", f"len(result) == names_before(len({NAMES}))",
+                                         "the_kth_member_name_gives_the_kth_member", f"forall(k, 0, len({NAMES}), {at('result', 'k')})")))
     # set_task: held to the round trip only (its None for unknown strings is guarded by _check_tasks)
     P.contract(Contract("common.evaluation_task:set_task", params={"task_name": TStr()},
                         ensures=E("value_parses_to_its_member", "all([implies(task_name == m.value, result is m) for m in EvaluationTask])",
